@@ -359,6 +359,13 @@ func (c *MemConn) ResetByPeer(err error) {
 	c.mu.Unlock()
 }
 
+// WriteFaultArmed reports whether a future Write is scripted to fail.
+func (c *MemConn) WriteFaultArmed() bool {
+	c.mu.Lock()
+	defer c.mu.Unlock()
+	return c.failWrite > 0 || c.resetErr != nil
+}
+
 // BlockedWriters is the number of client Write calls currently blocked.
 func (c *MemConn) BlockedWriters() int { return int(atomic.LoadInt32(&c.blockedW)) }
 
